@@ -1,10 +1,14 @@
 (* C07 — every error carries a truthful location and include trace.
    Statements only; proofs in Proofs/C07Proofs.v.  PARTIAL: the arithmetic of
-   Bytes.LineAndColumn is a theorem; every error of the scanner points into the file (all inputs); that every error of a build points into its file with
+   Bytes.LineAndColumn is a theorem; every error of the scanner points into the file (all inputs);
+   every error of the scanning phase of a project (scanner + directive layer + INCLUDE, any include
+   tree) is located in the file being scanned at that moment or on the keyword of the pending
+   directive, and each error of JApiCore.next sits at the first byte of the lexeme being processed,
+   on the pending directive, or at the byte before the cursor (Proofs/CoreErrLoc.v); that every error of a build points into its file with
    the right trace is REFUTED twice on the current tree (findings F11, F13) and otherwise
    checked by correspondence and by an independent recomputation on the implementation. *)
 From JS Require Import Base Bytes Scanner ScanRun Core Entry C07Proofs.
-From JS Require ErrInFile ScannerProg.
+From JS Require ErrInFile ScannerProg CoreErrLoc.
 Open Scope Z_scope.
 
 Theorem C07_line_and_column :
@@ -26,6 +30,25 @@ Theorem C07_scanner_errors_point_into_the_file :
     match e with EndErr err => ErrInFile.in_file data err | _ => True end.
 Proof. exact ErrInFile.scanner_errors_point_into_the_file. Qed.
 
+(* the scanning phase of a whole project, for every scanner program, file system, oracle, include
+   tree and fuel: the error scanProject ends with is located in the file that is being scanned at
+   that moment, or on the keyword of the directive pending at that moment (context errors) *)
+Theorem C07_scan_phase_errors_are_located :
+  forall prog nl ws fs olen init_st fuel st e stx,
+    scan_project prog nl ws fs olen init_st fuel st = SErr e stx ->
+    e_file e = cs_file stx \/
+    exists d, cs_cur stx = Some d /\ e_file e = co_file (d_kw d) /\ e_index e = co_begin (d_kw d).
+Proof. exact CoreErrLoc.scan_phase_errors_are_located. Qed.
+
+(* where exactly an error of JApiCore.next sits: at the first byte of the lexeme being processed, on
+   the pending directive (with that directive's include trace), or at the byte before the cursor *)
+Theorem C07_directive_layer_errors_sit_on_the_lexeme_or_the_pending_directive :
+  forall st l e, core_next st l = CErr e ->
+    (e_file e = cs_file st /\ e_index e = lb l /\ e_trace e = []) \/
+    (exists d, cs_cur st = Some d /\ e_file e = co_file (d_kw d) /\ e_index e = co_begin (d_kw d) /\ e_trace e = d_trace d) \/
+    (e_file e = cs_file st /\ e_index e = c_cur (cs_conf st) - 1 /\ e_trace e = []).
+Proof. exact CoreErrLoc.core_next_error_place. Qed.
+
 Theorem C07_refuted_end_of_file_errors :
   match err_loc (tree_case [(rn, FFile f11_doc)] rn [] [] 1000) with
   | Some l => (rl_index l =? Z.of_nat (List.length f11_doc)) && (rl_line l =? 0) && (rl_col l =? 0)
@@ -42,3 +65,5 @@ Print Assumptions C07_line_and_column.
 Print Assumptions C07_scanner_errors_point_into_the_file.
 Print Assumptions C07_refuted_end_of_file_errors.
 Print Assumptions C07_refuted_tracer_cache.
+Print Assumptions C07_scan_phase_errors_are_located.
+Print Assumptions C07_directive_layer_errors_sit_on_the_lexeme_or_the_pending_directive.
